@@ -494,13 +494,10 @@ func mustPassFrom(f *ssa.Function, start *ssa.BasicBlock, startIdx int, targets 
 					p2[ng+ci] = val
 				}
 			}
-			// entering the block that (re)defines a tracked value forgets it
-			for cv, ci := range corrIdx {
-				if in, ok := cv.(ssa.Instruction); ok && in.Block() == s && s != n.st.b {
-					if _, isPhi := cv.(*ssa.Phi); isPhi || s.Dominates(n.st.b) {
-						p2[ng+ci] = 0
-					}
-				}
+			// entering a block that (re)defines an input of a tracked condition
+			// (a phi it mentions, or the condition itself via a back edge) forgets it
+			for _, ci := range corrResets(f)[s] {
+				p2[ng+ci] = 0
 			}
 			st := pathState{s, string(p2)}
 			if !seen[st] {
